@@ -523,7 +523,10 @@ fn decode_both(file: &[u8], what: &str) -> Result<Result<((u32, u32), Vec<[u8; 3
         Ok(r) => unpack(r),
         Err(p) => return Err(Fail::new(panic_sig(&p), format!("parse_pnm panicked on {what} {}: {}", show(file), oneline(&p)))),
     };
-    let b = match catch(|| read_pnm(file)) {
+    // read_pnm: straight from the slice, or (decided by the content) through a reader that returns 1..7 bytes per call
+    // and is interrupted now and then
+    let chunked = hash_of(&file) & 0x30 == 0;
+    let b = match catch(|| if chunked { read_pnm(ChunkReader::for_content(file)) } else { read_pnm(file) }) {
         Ok(r) => unpack(r),
         Err(p) => return Err(Fail::new(panic_sig(&p), format!("read_pnm panicked on {what} {}: {}", show(file), oneline(&p)))),
     };
